@@ -47,12 +47,7 @@ def check(prog, run):
     if not any(o.rule == "O-hom" for o in run.obs):
         run.ob("O-hom", fn.qual, "all-operations", True, "no event on any Hankel method")
     run.trusted |= set(CTX.used)
-    try:
-        from .. import symidx
-    except ImportError:
-        symidx = None
-    if symidx and hasattr(symidx, "c03_interleave"):
-        symidx.c03_interleave(prog, run)
+    interleave(prog, run)
     try:
         from .. import seqsig
     except ImportError:
@@ -66,3 +61,190 @@ def check(prog, run):
 def hd_elem(v):
     from ..absint import elem
     return elem(v) if isinstance(v, (Lst, Tup)) else v
+
+
+# ----------------------------------------------------------------------------- R-interleave
+import ast  # noqa: E402
+from .. import astq, symidx  # noqa: E402
+from ..program import rel  # noqa: E402
+from ..poly import P  # noqa: E402
+
+
+def _index_map(prog, fi, se, x):
+    """np.array([np.arange(NB) * W + j for j in range(a, b)]).flatten(order=O) -> dict(NB, W, a, b, order)"""
+    if not (isinstance(x, ast.Call) and isinstance(x.func, ast.Attribute) and x.func.attr in ("flatten", "ravel", "reshape")):
+        return None
+    o = astq.kwarg(x, "order", 0 if x.func.attr != "reshape" else None)
+    order = o.value.upper() if isinstance(o, ast.Constant) and isinstance(o.value, str) else "C"
+    inner = x.func.value
+    if not (isinstance(inner, ast.Call) and astq.callee_name(prog, fi, inner) in ("numpy.array", "numpy.asarray", "numpy.vstack") and inner.args and isinstance(inner.args[0], ast.ListComp)):
+        return None
+    lc = inner.args[0]
+    g = lc.generators[0]
+    rc = symidx.is_range(prog, fi, g.iter)
+    ra = symidx.range_args(se, rc) if rc is not None else None
+    if ra is None or not isinstance(g.target, ast.Name):
+        return None
+    e = lc.elt
+    # arange(NB) * W + j
+    if not (isinstance(e, ast.BinOp) and isinstance(e.op, ast.Add)):
+        return None
+    for a, b in ((e.left, e.right), (e.right, e.left)):
+        if isinstance(b, ast.Name) and b.id == g.target.id and isinstance(a, ast.BinOp) and isinstance(a.op, ast.Mult):
+            for u, v in ((a.left, a.right), (a.right, a.left)):
+                if isinstance(u, ast.Call) and astq.callee_name(prog, fi, u) == "numpy.arange" and len(u.args) == 1:
+                    return {"NB": se.ev(u.args[0]), "W": se.ev(v), "a": ra[0], "b": ra[1], "order": order, "node": x}
+    return None
+
+
+KEEP = ("n_mov", "n_ref")
+
+
+def interleave(prog, run):
+    run.rule("R-interleave", "per-setup observability rows are split block-major (stride = channels of the setup, column-major flatten) into reference / roving parts, "
+             "re-based with O_mov . pinv(O_ref) . O1_ref, and assembled block by block at ii*n_DOF + [0, n_ref), then each setup's n_mov rows contiguously", 10)
+    fi = prog.func(FN)
+    f = rel(prog.mods[fi.mod].path)
+    se = symidx.SymEval(prog, fi, stop={"n_mov", "n_ref"})
+    pos, _, _, _ = astq.params_of(fi.node)
+    br = P.s(pos[2])
+
+    def ob(role, ok, detail, node=None):
+        run.ob("R-interleave", fi.qual, role, ok, detail, witness=detail[:90], file=f, node=node)
+    # the two fancy-index reads Obs[ref_id, :] / Obs[mov_id, :]
+    maps = []
+    for n in ast.walk(fi.node):
+        if isinstance(n, ast.Assign) and isinstance(n.value, ast.Subscript) and len(astq.index_elts(n.value)) == 2 and astq.is_full_slice(astq.index_elts(n.value)[1]):
+            idx = astq.expr_at(fi, n, astq.index_elts(n.value)[0], keep=KEEP)
+            m = _index_map(prog, fi, se, idx)
+            if m is not None:
+                m["target"] = n.targets[0].id if isinstance(n.targets[0], ast.Name) else None
+                m["stmt"] = n
+                maps.append(m)
+    if len(maps) != 2:
+        ob("reference / roving index maps", None, f"{len(maps)} index maps of the form array([arange(br)*w + j ...]).flatten() found (2 expected)")
+        return
+    maps.sort(key=lambda m: repr(m["a"]))
+    refm, movm = (maps[0], maps[1]) if maps[0]["a"] == P.c(0) else (maps[1], maps[0])
+    n_ref = refm["b"]
+    r_sym = se.ev(ast.parse("Y_all.shape[0]", mode="eval").body)
+    for nm, m in (("reference", refm), ("roving", movm)):
+        ob(f"{nm} map: column-major flatten (block-major row order)", m["order"] == "F", f"flatten(order='{m['order']}')", m["node"])
+        ob(f"{nm} map: one index per block row used (br blocks)", m["NB"] is not None and m["NB"] == br, f"arange({m['NB']!r})", m["node"])
+        wtxt = repr(m["W"]).replace(" ", "")
+        okw = m["W"] is not None and ((m["W"] - P.s("n_ref")).t and len((m["W"] - P.s("n_ref")).t) == 1 and "n_mov[" in repr(m["W"] - P.s("n_ref")) or (r_sym is not None and m["W"] == r_sym))
+        ob(f"{nm} map: stride = channels of this setup (n_ref + n_mov[k])", okw, f"stride {m['W']!r}", m["node"])
+    ob("reference channels = [0, n_ref)", refm["a"] == P.c(0) and refm["b"] == P.s("n_ref"), f"range({refm['a']!r}, {refm['b']!r})", refm["node"])
+    okm = movm["a"] == refm["b"] and (movm["b"] == r_sym or "shape[0]" in repr(movm["b"]))
+    ob("roving channels = [n_ref, r): the two maps partition the channels", okm, f"range({movm['a']!r}, {movm['b']!r})", movm["node"])
+    # re-basing
+    apps = [n for n in ast.walk(fi.node) if isinstance(n, ast.Call) and isinstance(n.func, ast.Attribute) and n.func.attr == "append" and len(n.args) == 1]
+    reb = None
+    for a in apps:
+        x = astq.expr_at(fi, a, a.args[0], keep=KEEP)
+        nf = astq.matnf(prog, fi, x)
+        if nf is not None and len(nf) == 3 and any(i for _, i, _ in nf):
+            reb = (a, nf)
+    if reb is None:
+        ob("re-basing O_mov . pinv(O_ref) . O1_ref", None, "appended re-based roving block not found / not a product with one inverse")
+    else:
+        a, nf = reb
+        def which(x):
+            t = astq.src(x, 2000)
+            # identify by the index map used
+            for nm, m in (("REF", refm), ("MOV", movm)):
+                if astq.src(m["node"], 2000) in t:
+                    return nm
+            return astq.src(x, 30)
+        sig = [(which(x) if not isinstance(x, ast.Name) else x.id, i, t) for x, i, t in nf]
+        first_basis = isinstance(nf[2][0], ast.Name)
+        okn = sig[0][0] == "MOV" and not sig[0][1] and sig[1][0] == "REF" and sig[1][1] and not sig[1][2] and first_basis and not sig[2][1]
+        pretty = " . ".join(f"{r}{'^-1' if i else ''}{'^T' if t else ''}" for r, i, t in sig)
+        ob("re-basing = O_mov . pinv(O_ref) . O_ref(first setup)", okn, f"normal form: {pretty}", a)
+        if first_basis:
+            bname = nf[2][0].id
+            asg = [n for n in ast.walk(fi.node) if isinstance(n, ast.Assign) and isinstance(n.targets[0], ast.Name) and n.targets[0].id == bname]
+            pm = astq.parent_map(fi.node)
+            okb = False
+            if len(asg) == 1:
+                g = astq.enclosing(pm, asg[0], (ast.If,))
+                vx = astq.expr_at(fi, asg[0], asg[0].value, keep=KEEP)
+                okb = g is not None and astq.src(g.test).replace(" ", "") in ("kk==0", "0==kk") and astq.src(refm["node"], 2000) in astq.src(vx, 3000)
+            ob("basis = reference part of the FIRST setup only", okb, f"`{bname}` assigned under `{astq.src(g.test) if asg and g is not None else '?'}`" if asg else "basis assignment not found", asg[0] if asg else None)
+    # assembly stores into the global matrix
+    rets = [n for n in ast.walk(fi.node) if isinstance(n, ast.Return) and isinstance(n.value, ast.Tuple)]
+    gname = rets[-1].value.elts[0].id if rets and isinstance(rets[-1].value.elts[0], ast.Name) else None
+    stores = [n for n in ast.walk(fi.node) if isinstance(n, ast.Assign) and isinstance(n.targets[0], ast.Subscript) and isinstance(n.targets[0].value, ast.Name) and n.targets[0].value.id == gname]
+    if len(stores) != 2:
+        ob("assembly stores", None, f"{len(stores)} stores into the global observability matrix (2 expected)")
+        return
+    pm = astq.parent_map(fi.node)
+    outer = astq.enclosing(pm, stores[0], (ast.For,))
+    ii = outer.target.id if outer is not None and isinstance(outer.target, ast.Name) else None
+    ra = symidx.range_args(se, symidx.is_range(prog, fi, outer.iter)) if outer is not None and symidx.is_range(prog, fi, outer.iter) is not None else None
+    ob("assembly runs over the same br blocks", ra is not None and ra[0] == P.c(0) and ra[1] == br, f"range({', '.join(map(repr, ra)) if ra else '?'})", outer)
+    n_dof = None
+    for st in stores:
+        tgt = st.targets[0]
+        el = astq.index_elts(tgt)
+        sl = astq.expr_at(fi, st, ast.Tuple(elts=[el[0].lower, el[0].upper], ctx=ast.Load()), keep=KEEP)
+        lo, hi = se.ev(sl.elts[0]), se.ev(sl.elts[1])
+        src = astq.expr_at(fi, st, st.value, keep=KEEP)
+        sel = astq.index_elts(src)[0] if isinstance(src, ast.Subscript) else None
+        if lo is None or hi is None or not isinstance(sel, ast.Slice):
+            ob("assembly store", None, f"`{astq.src(st, 80)}` not of the form G[a:b, :] = X[c:d, :]", st)
+            continue
+        slo, shi = se.ev(sel.lower), se.ev(sel.upper)
+        inner = astq.enclosing(pm, st, (ast.For,))
+        if inner is outer:
+            # reference rows of block ii
+            n_dof_expr = lo
+            okpos = ii is not None and "n_mov" in repr(lo) and all(any(sn == ii for sn, e in k) for k in lo.t) and (hi - lo) == n_ref
+            oksrc = slo is not None and shi is not None and slo == P.s(ii) * n_ref and (shi - slo) == n_ref
+            ob("block ii: reference rows at ii*n_DOF + [0, n_ref), taken from block ii of the first setup's reference part", okpos and oksrc,
+               f"target [{lo!r} : {hi!r}], source [{slo!r} : {shi!r}]", st)
+        else:
+            jj = inner.target.id if isinstance(inner.target, ast.Name) else None
+            length = hi - lo
+            okl = jj is not None and f"n_mov[{jj}]" in repr(length).replace(" ", "") and len(length.t) == 1
+            oksrc = slo is not None and shi is not None and (shi - slo) == length and repr(slo).replace(" ", "") in (f"{ii}*n_mov[{jj}]", f"n_mov[{jj}]*{ii}")
+            # contiguity: the start is the previous end (loop-carried running offset)
+            env = astq.env_at(fi.node.body, st)
+            lo_e = el[0].lower
+            hi_e = el[0].upper
+            contiguous = isinstance(lo_e, ast.Name) and isinstance(hi_e, ast.Name) and lo_e.id in env and isinstance(env[lo_e.id], ast.Name) and env[lo_e.id].id == hi_e.id
+            ob("block ii: each setup's roving rows follow contiguously (length n_mov[jj], source = block ii of that setup's re-based part)", okl and oksrc and contiguous,
+               f"target length {length!r}, source [{slo!r} : {shi!r}], start = previous end: {contiguous}", st)
+            srcbase = src.value if isinstance(src, ast.Subscript) else None
+            oks = isinstance(srcbase, ast.Subscript) and isinstance(srcbase.slice, ast.Name) and srcbase.slice.id == jj
+            ob("roving rows of setup jj are taken from the re-based block of setup jj", oks, f"source `{astq.src(st.value, 60)}`", st)
+    alloc = astq.expand(fi, ast.Name(id=gname, ctx=ast.Load()))
+    if isinstance(alloc, ast.Call) and astq.callee_name(prog, fi, alloc) in ("numpy.zeros", "numpy.empty", "numpy.full"):
+        shp = alloc.args[0]
+        rows = se.ev(shp.elts[0]) if isinstance(shp, ast.Tuple) else None
+        okr = rows is not None and "n_mov" in repr(rows) and all(pos[2] in "".join(s for s, e in k) for k in rows.t)
+        ob("global matrix has n_DOF * br rows", okr, f"rows = {rows!r}", None)
+
+
+S = "functions.ssi"
+G = "functions.gen"
+MUTANTS = [
+    ("C03-m01 row-major flatten of the reference map", S, "SSI_multi_setup", "ref_id = ref_id.flatten(order='f')", "ref_id = ref_id.flatten(order='C')"),
+    ("C03-m02 stride of the reference channels only", S, "SSI_multi_setup", "np.arange(br) * (n_ref + n_mov[kk]) + j", "np.arange(br) * n_ref + j", 1),
+    ("C03-m03 one block row too many", S, "SSI_multi_setup", "np.arange(br) * (n_ref + n_mov[kk]) + j", "np.arange(br + 1) * (n_ref + n_mov[kk]) + j", 2),
+    ("C03-m04 re-basing inverted", S, "SSI_multi_setup", "np.dot(np.dot(O_mov, np.linalg.pinv(O_ref)), O1_ref)", "np.dot(np.dot(O_mov, np.linalg.pinv(O1_ref)), O_ref)"),
+    ("C03-m05 basis updated by every setup", S, "SSI_multi_setup", "if kk == 0:\n    O1_ref = O_ref", "O1_ref = O_ref"),
+    ("C03-m06 roving block of the first setup's size", S, "SSI_multi_setup", "O_mov_s[jj][ii * n_mov[jj]:(ii + 1) * n_mov[jj], :]", "O_mov_s[jj][ii * n_mov[0]:(ii + 1) * n_mov[0], :]"),
+    ("C03-m07 running offset restarts per setup", S, "SSI_multi_setup", "id1 = id2", "id1 = ii * n_DOF + n_ref", 1),
+    ("C03-m08 references stacked after the roving channels", S, "SSI_multi_setup", "np.vstack((Y[kk]['ref'], Y[kk]['mov']))", "np.vstack((Y[kk]['mov'], Y[kk]['ref']))"),
+    ("C03-m09 split takes the references in ascending order", G, "pre_multisetup", "ref = y[:, ref_id]", "ref = y[:, sorted(ref_id)]"),
+    ("C03-m10 roving index list from the first setup", G, "pre_multisetup", "mov_id.remove(ref_id[ii])", "mov_id.remove(reflist[0][ii])"),
+    ("C03-m11 first setup's gain leaks: no re-basing", S, "SSI_multi_setup", "O_mov_s.append(O_movs)", "O_mov_s.append(O_mov)"),
+    ("C03-m12 roving map starts at channel 0", S, "SSI_multi_setup", "range(n_ref, r)", "range(0, r - n_ref)"),
+]
+REWRITES = [
+    ("rename:C03-r01", S, "SSI_multi_setup", "O1_ref", "basis_ref"),
+    ("C03-r02 matmul operator for the re-basing", S, "SSI_multi_setup", "np.dot(np.dot(O_mov, np.linalg.pinv(O_ref)), O1_ref)", "O_mov @ np.linalg.pinv(O_ref) @ O1_ref"),
+    ("C03-r03 upper-case flatten order", S, "SSI_multi_setup", "mov_id = mov_id.flatten(order='f')", "mov_id = mov_id.flatten(order='F')"),
+    ("C03-r04 complement by comprehension", G, "pre_multisetup", "mov_id = list(range(n_sens))", "mov_id = list(range(0, n_sens))"),
+]
